@@ -82,3 +82,30 @@ Theorem C17_narrowed_to_coverage : forall cb zmin zmax a,
   forall k, is_zoom k = false -> m_get k (t_vals r) = m_get k (t_vals a).
 Proof. exact update_from_pyramid_spec. Qed.
 Print Assumptions C17_narrowed_to_coverage.
+
+(* ---- vector_layers (merged layer by layer when containers and operators merge TileJSON documents) ---- *)
+From VT Require Import Model.VectorLayers Proofs.VectorLayersProofs.
+(* per layer id: in both documents -> the merged layer, in one -> that layer, in none -> absent *)
+Theorem C17_vector_layers_merge : forall b a id, ids_unique b ->
+  l_get id (vls_merge a b) =
+    match l_get id b with
+    | Some lb => Some (match l_get id a with Some la => vl_merge la lb | None => lb end)
+    | None => l_get id a
+    end.
+Proof. exact vls_merge_get. Qed.
+Print Assumptions C17_vector_layers_merge.
+(* merged into a document without layers (the default document of the tar / directory readers): handed back as they are *)
+Theorem C17_vector_layers_into_default : forall b id, ids_unique b -> l_get id (vls_merge [] b) = l_get id b.
+Proof. exact vls_merge_into_empty. Qed.
+Print Assumptions C17_vector_layers_into_default.
+(* a field of a merged layer: the other layer's (last) value if it has the field, else the own one *)
+Theorem C17_vector_layer_fields : forall a b k,
+  f_get k (vl_fields (vl_merge a b)) = f_last k (vl_fields b) (f_get k (vl_fields a)).
+Proof. exact vl_merge_field. Qed.
+Print Assumptions C17_vector_layer_fields.
+Example C17_vector_layers_example :
+  let a := [([97], mkVL [([120], [49])] None (Some 3) (Some 9))]%N in
+  let b := [([97], mkVL [([120], [50]); ([121], [51])] (Some [100]) (Some 5) (Some 12)); ([98], mkVL [] None None None)]%N in
+  l_get [97]%N (vls_merge a b) = Some (mkVL [([120], [50]); ([121], [51])] (Some [100]) (Some 3) (Some 12))%N /\
+  l_get [98]%N (vls_merge a b) = Some (mkVL [] None None None) /\ ids_unique b.
+Proof. repeat split; vm_compute; reflexivity. Qed.
